@@ -17,13 +17,21 @@ def run(ctx):
     ctx.suites_run.append(oracles.SUITE)
     rng = ctx.rng
     n = 8 if not ctx.thorough else 40
-    ctx.rule("all exported optimizers × tasks (min and max) × 2..6 cycles × seeds × serial/thread (a quarter on an instance that has just solved a task of the opposite direction): an independent deep snapshot after every cycle is compared with result.evolution at the end; "
+    ctx.rule("all exported optimizers × tasks (min and max) × 2..6 cycles (plus runs cut short by early stopping / fitness_error) × seeds × serial/thread (a quarter on an instance that has just solved a task of the opposite direction): an independent deep snapshot after every cycle is compared with result.evolution at the end; "
              "agent_trend / agent_position / best_* are called on the real result for ranks {0, 1, middle, last} and iteration subsets {all, last, reversed, every other, with repeats} and compared with a direct ranking; the recorded history is re-read after the utilities ran (they are readers); "
              "of the recorded generations and with the model; a case = one run; non-trivial = ≥ 3 generations")
     js = jobs.make_jobs(rng, optimizers.names(), ["cont-sym", "cont", "cont-zero", "mixed", "disc"], n, modes=("serial", "serial", "thread"), max_cycles_choices=(2, 3, 4, 6), multi=False)
     for j in js:
         L = j["cfg"]["max_cycles"] + 1
         j["utils"] = [("all", None), ("last", [L - 1]), ("rev", list(range(L - 1, -1, -1))), ("odd", list(range(0, L, 2))), ("rep", [0, 0, L - 1])]
+    # runs that end by early stopping / fitness_error before the budget (the history is shorter than max_cycles + 1; `iters=None` only)
+    es_jobs = jobs.make_jobs(rng, optimizers.names(), ["cont-sym", "cont"], 2 if not ctx.thorough else 6, modes=("serial",), max_cycles_choices=(8, 12), multi=False)
+    for j in es_jobs:
+        j["cfg"]["early_stopping"] = {"patience": rng.choice([1, 2, 3]), "min_delta": rng.choice([0.01, 0.5, 10.0])}
+        j["cfg"]["fitness_error"] = rng.choice([None, None, 0.5])
+        j["utils"] = [("all", None)]
+        j["kind"] = j["kind"] + "+early-stopping"
+    js += es_jobs
     for j in rng.sample(js, len(js) // 4):
         j["warmup"] = {"minmax": "max" if j["minmax"] == "min" else "min"}     # the instance has just solved a task of the opposite direction
         j["kind"] = j["kind"] + "+reused"
